@@ -112,7 +112,8 @@ class XMLSchemaValidatorError(XMLSchemaException):
                     root=self.source.root,
                     namespaces=self.namespaces,
                     relative=False,
-                    add_position=True
+                    add_position=True,
+                    pruned=self.source.pruned
                 )
                 value = None
 
@@ -177,7 +178,8 @@ class XMLSchemaValidatorError(XMLSchemaException):
                 root=self.root,
                 namespaces=self.namespaces,
                 relative=False,
-                add_position=True
+                add_position=True,
+                pruned=self.source.pruned if isinstance(self.source, XMLResource) else None
             )
         return self._path
 
